@@ -1520,3 +1520,57 @@ Proof.
   rewrite tablet_for_token_find in Ht by assumption. apply find_some in Ht as [Hin _].
   exact (Hn k t r Hin Hr).
 Qed.
+
+(* ------------------------------------------------------------------------------------ *)
+(* N. several tables: independence, unknown tables, dropped tables                       *)
+(* ------------------------------------------------------------------------------------ *)
+
+(* a payload for table k0 touches no other table; for a table without an entry an accepted payload
+   creates the entry holding exactly that tablet; a refused payload changes nothing *)
+Lemma learn_tables h s k0 a b raw known s' :
+  Forall op_i64 h -> run h = Some s -> i64_ok a -> i64_ok b ->
+  step s (Learn k0 a b raw known) = Some s' ->
+  (forall k, k <> k0 -> find_table s' k = find_table s k) /\
+  (spec_payload_ok a b raw = false -> s' = s) /\
+  (spec_payload_ok a b raw = true -> find_table s k0 = None ->
+   exists t fl, find_table s' k0 = Some (mkTT [t] fl) /\ t_first t = a + 1 /\ t_last t = b /\
+                r_all (t_reps t) = spec_resolved known (map (fun hs => (fst hs, Z.to_N (snd hs))) raw)).
+Proof.
+  intros Hok Hrun Ha Hb Hstep. pose proof (run_state_inv h s Hok Hrun) as Hinv.
+  cbn [step] in Hstep. pose proof (payload_check_spec a b raw) as Hps.
+  destruct (payload_check a b raw) as [[[f l] r]|e] eqn:E.
+  - destruct Hps as [Hps Hr].
+    destruct (learn_tablet a b raw known f l r Ha Hb E) as (Hwf & Hdc & Ef & El & _).
+    destruct (info_add_inv s k0 _ Hinv Hwf Hdc) as (s1 & E1 & _ & Hother & tt' & Ett' & Hli' & Hin').
+    rewrite E1 in Hstep. injection Hstep as <-. split; [exact Hother|]. split; [congruence|].
+    intros _ Hnone. rewrite Hnone in Hin'. cbn [or_empty tt_empty tt_list] in Hin'.
+    destruct tt' as [l' fl']. cbn [tt_list] in *.
+    assert (l' = [from_raw_tablet f l r known]) as ->.
+    { destruct l' as [|x l'].
+      - exfalso. apply (proj2 (Hin' _) (or_introl eq_refl)).
+      - assert (x = from_raw_tablet f l r known) as -> by (destruct (proj1 (Hin' x) (or_introl eq_refl)) as [?|[[] _]]; assumption).
+        destruct l' as [|y l']; [reflexivity|]. exfalso.
+        assert (y = from_raw_tablet f l r known) as -> by (destruct (proj1 (Hin' y) (or_intror (or_introl eq_refl))) as [?|[[] _]]; assumption).
+        destruct Hli' as [_ Hss]. inversion Hss as [|? ? _ Hall]; subst. inversion Hall as [|? ? Hlt _]; subst.
+        unfold lt_tab in Hlt. destruct Hwf as (_ & _ & Hwf). lia. }
+    eexists _, _. split; [exact Ett'|]. split; [exact Ef|]. split; [exact El|].
+    destruct (payload_check_ok a b raw f l r Ha Hb E) as (_ & -> & -> & _).
+    destruct (from_raw_tablet_props (a + 1) b r known) as (_ & _ & _ & F4 & _). now rewrite F4, Hr.
+  - injection Hstep as <-. split; [reflexivity|]. split; [reflexivity|]. intros Hacc. congruence.
+Qed.
+
+(* maintenance acts on every table on its own, tablet by tablet; a table that is not a table/view of a
+   tablet keyspace loses all its tablets (and its entry unless a duplicate keyspace lists it) *)
+Lemma maintain_tables h kss removed current recreated s s' k :
+  Forall op_i64 h -> run h = Some s -> step s (Maintain kss removed current recreated) = Some s' ->
+  tt_list (or_empty (find_table s' k)) =
+    (if keep_table kss k
+     then filter_map (maint_tablet removed current recreated) (tt_list (or_empty (find_table s k)))
+     else []) /\
+  (NoDup (map ks_name kss) -> is_some (find_table s' k) = keep_table kss k).
+Proof.
+  intros Hok Hrun Hstep. pose proof (run_state_inv h s Hok Hrun) as Hinv.
+  pose proof Hstep as Hstep'. cbn [step] in Hstep. injection Hstep as <-. split.
+  - now apply info_maintenance_lists.
+  - intros Hnd. rewrite (step_present s (Maintain kss removed current recreated) _ k Hinv I Hnd Hstep'). cbn [spec_present_step]. now rewrite keep_table_spec.
+Qed.
